@@ -493,8 +493,10 @@ def sdss_specobjid(plate, fiber, mjd, run2d, line=None, index=None):
             if m is None:
                 raise ValueError("Could not extract integer run2d value!")
             else:
-                N, M, P = m.groups()
-            run2d = np.array([(int(N) - 5)*10000 + int(M) * 100 + int(P)],
+                N, M, P = [int(g) for g in m.groups()]
+            if not (5 <= N <= 6 and M <= 99 and P <= 99):
+                raise ValueError("run2d values are out-of-bounds!")
+            run2d = np.array([(N - 5)*10000 + M * 100 + P],
                              dtype=np.uint64)
     elif isinstance(run2d, int):
         run2d = np.array([run2d])
